@@ -44,8 +44,6 @@ PENDING = {
  "C11": "check not built yet (planned: next_prefix kernel, DESIGN §5 C11)",
  "C15": "check not built yet (planned: PoA verify_block_fields, DESIGN §5 C15)",
  "C22": "check not built yet (planned: TxUpdateStream steps, DESIGN §5 C22)",
- "C29": "check not built yet (planned: relayer pager kernel, DESIGN §5 C29)",
- "C30": "check not built yet (planned: select_new_da_height, DESIGN §5 C30)",
  "C34": "check not built yet (planned: gas price updater step, DESIGN §5 C34)",
  "C36": "check not built yet (planned: balances indexation step, DESIGN §5 C36)",
  "C37": "check not built yet (planned: select_coins_to_spend, DESIGN §5 C37)",
